@@ -50,27 +50,42 @@ func optMap(o smgp.Options) map[uint16][]byte {
 	return m
 }
 
+var marker = []byte{0xBE, 0xEF}
+
 var parsers = []struct {
-	name string
-	f    func(b []byte) parsed
+	name   string
+	f      func(b []byte) parsed
+	mutate func(b []byte) // parse b and add a marker parameter (tag 0xBEEF) to the returned container
 }{
 	{"smpp.ReadTLVs", func(b []byte) parsed {
 		t, err := smpp.ReadTLVs(packet.NewPacketReader(b))
 		return parsed{tlvMap(t), err == nil}
+	}, func(b []byte) {
+		t, _ := smpp.ReadTLVs(packet.NewPacketReader(b))
+		t.SetTLV(smpp.NewTLV(0xBEEF, marker))
 	}},
 	{"smpp.ReadTLVs1", func(b []byte) parsed {
 		r := packet.NewPacketReader(b)
 		t := smpp.ReadTLVs1(r)
 		return parsed{tlvMap(t), t != nil || len(b) == 0}
+	}, func(b []byte) {
+		t := smpp.ReadTLVs1(packet.NewPacketReader(b))
+		t.SetTLV(smpp.NewTLV(0xBEEF, marker))
 	}},
 	{"smgp.ParseOptions", func(b []byte) parsed {
 		o, err := smgp.ParseOptions(b)
 		return parsed{optMap(o), err == nil}
+	}, func(b []byte) {
+		o, _ := smgp.ParseOptions(b)
+		o.Add(smgp.NewOption(0xBEEF, marker))
 	}},
 	{"smgp.ReadOptions", func(b []byte) parsed {
 		r := packet.NewPacketReader(b)
 		o := smgp.ReadOptions(r)
 		return parsed{optMap(o), o != nil || len(b) == 0}
+	}, func(b []byte) {
+		o := smgp.ReadOptions(packet.NewPacketReader(b))
+		o.Add(smgp.NewOption(0xBEEF, marker))
 	}},
 }
 
@@ -120,8 +135,30 @@ func checkSet(c SetCase) *vk.Violation {
 			viol = vk.Violf("smgp.Options.Add/add-to-empty-lost", c, "after %d Add calls on a nil Options the container holds %d parameters", len(ts), len(op))
 			return
 		}
+		// what the accessors hand out belongs to the caller: overwriting it must not reach the container
+		for tag, x := range tl {
+			b := x.Bytes()
+			for i := range b {
+				b[i] ^= 0xFF
+			}
+			if !bytes.Equal(tl[tag].Value(), want[tag]) {
+				viol = vk.Violf("smpp.TLV.Bytes/result-aliases-container", c, "overwriting the slice TLV.Bytes() returned changed the parameter (tag %#04x) inside the container", tag)
+				return
+			}
+		}
+		for tag, x := range op {
+			b := x.Bytes()
+			for i := range b {
+				b[i] ^= 0xFF
+			}
+			if !bytes.Equal(op[tag].Value(), want[uint16(tag)]) {
+				viol = vk.Violf("smgp.Option.Bytes/result-aliases-container", c, "overwriting the slice Option.Bytes() returned changed the parameter (tag %#04x) inside the container", uint16(tag))
+				return
+			}
+		}
 		for rep := 0; rep < 4; rep++ {
 			for ci, ser := range [][]byte{tl.Bytes(), op.Serialize()} {
+				vk.Retain([]string{"smpp.TLVs.Bytes", "smgp.Options.Serialize"}[ci], ser)
 				cont := []string{"smpp.TLVs.Bytes", "smgp.Options.Serialize"}[ci]
 				got, _, clean := ref.ParseTriplets(ser)
 				if !clean {
@@ -131,6 +168,38 @@ func checkSet(c SetCase) *vk.Violation {
 				if d := ref.DiffTripletSets(want, ref.TripletMap(got)); d != "" || len(got) != len(want) {
 					viol = vk.Violf(cont+"/serialised-set-differs", c, "%s: emitted set differs from the container: %s", cont, d)
 					return
+				}
+				if rep == 0 && len(ser) > 0 {
+					// the same for containers that come out of the parsers (decoded PDUs are built from these)
+					if ci == 0 {
+						pt, _ := smpp.ReadTLVs(packet.NewPacketReader(append([]byte{}, ser...)))
+						for tag, x := range pt {
+							b := x.Bytes()
+							for i := range b {
+								b[i] ^= 0xFF
+							}
+							if !bytes.Equal(pt[tag].Value(), want[tag]) {
+								viol = vk.Violf("smpp.TLV.Bytes/result-aliases-parsed-container", c, "overwriting TLV.Bytes() of a parsed parameter (tag %#04x) changed the parsed container", tag)
+								return
+							}
+						}
+					} else {
+						for _, parse := range []func() smgp.Options{
+							func() smgp.Options { o, _ := smgp.ParseOptions(append([]byte{}, ser...)); return o },
+							func() smgp.Options { return smgp.ReadOptions(packet.NewPacketReader(append([]byte{}, ser...))) }} {
+							po := parse()
+							for tag, x := range po {
+								b := x.Bytes()
+								for i := range b {
+									b[i] ^= 0xFF
+								}
+								if !bytes.Equal(po[tag].Value(), want[uint16(tag)]) {
+									viol = vk.Violf("smgp.Option.Bytes/result-aliases-parsed-container", c, "overwriting Option.Bytes() of a parsed option (tag %#04x) changed the parsed container", uint16(tag))
+									return
+								}
+							}
+						}
+					}
 				}
 				for _, p := range parsers[2*ci : 2*ci+2] {
 					r := p.f(ser)
@@ -182,6 +251,19 @@ func checkBytes(c BytesCase) *vk.Violation {
 			}
 			if !found {
 				return vk.Violf(p.name+"/fabricated-parameter", c, "%s(%x) reports tag %#04x = %x, which is not completely present at a triplet boundary of the input", p.name, clipb(b), tag, clipb(val))
+			}
+		}
+		// whatever the caller does to the container it got (add a parameter), a later parse of the same input
+		// must report what the input holds and nothing else: containers are not shared between calls
+		if r.ok {
+			if pn := guard("bytes", c, func() { p.mutate(append([]byte{}, b...)) }); pn != "" {
+				return vk.Violf(p.name+"/add-after-parse-panics", c, "adding to the container returned by %s panicked\n%s", p.name, pn)
+			}
+			again := p.f(append([]byte{}, b...))
+			if _, has := again.m[0xBEEF]; has {
+				if _, inInput := ref.TripletMap(complete)[0xBEEF]; !inInput {
+					return vk.Violf(p.name+"/container-shared-between-calls", c, "%s(%x): a parameter the caller added to the container of an earlier call (tag 0xBEEF) is reported by a later call although it is not in the input", p.name, clipb(b))
+				}
 			}
 		}
 		if clean {
@@ -381,6 +463,18 @@ func TestByteStrings(t *testing.T) {
 			b = rapid.SliceOfN(rapid.Byte(), 0, 64).Draw(t, "bytes")
 		case 1: // well-formed sequence in any order with duplicate tags
 			n := rapid.IntRange(0, 8).Draw(t, "n")
+			if rapid.IntRange(0, 4).Draw(t, "manytags") == 0 {
+				// far more distinct tags than any specification defines
+				m := rapid.IntRange(33, 300).Draw(t, "m")
+				base := rapid.Uint16().Draw(t, "basetag")
+				var ts []ref.Triplet
+				for i := 0; i < m; i++ {
+					ts = append(ts, ref.Triplet{Tag: base + uint16(i*7), Val: []byte{byte(i)}})
+				}
+				b = ref.EncodeTriplets(ts)
+				rec.Class("well_formed_with_more_than_32_distinct_tags")
+				break
+			}
 			var ts []ref.Triplet
 			for i := 0; i < n; i++ {
 				ts = append(ts, ref.Triplet{Tag: rapid.Uint16Range(0, 6).Draw(t, "tag"), Val: rapid.SliceOfN(rapid.Byte(), 0, 6).Draw(t, "val")})
